@@ -9,6 +9,7 @@ import (
 	"encoding/hex"
 	"fmt"
 	"go/ast"
+	"go/build"
 	"go/format"
 	"go/importer"
 	"go/parser"
@@ -64,6 +65,7 @@ type GenResult struct {
 	ParseErr   []string            `json:"parseErr"`
 	FmtDiff    []string            `json:"fmtDiff"`
 	TypeErr    []string            `json:"typeErr"`
+	Excluded   []string            `json:"excluded,omitempty"`
 	Checked    bool                `json:"checked"`
 	Templates  []string            `json:"templates"`
 	RouterDump string              `json:"routerDump,omitempty"`
@@ -244,7 +246,12 @@ func checkPackage(dir string, res *GenResult) {
 			res.ParseErr = append(res.ParseErr, trunc(err.Error(), 300))
 			continue
 		}
-		files = append(files, f)
+		// a file whose own build constraints exclude it is not part of the package the go tool builds
+		if ok, err := build.Default.MatchFile(dir, n); err == nil && !ok {
+			res.Excluded = append(res.Excluded, n)
+		} else {
+			files = append(files, f)
+		}
 		fm, err := format.Source(src)
 		if err != nil {
 			res.FmtDiff = append(res.FmtDiff, n+": gofmt error: "+trunc(err.Error(), 200))
@@ -264,6 +271,9 @@ func checkPackage(dir string, res *GenResult) {
 		}
 	}}
 	_, _ = conf.Check("gen", fset, files, nil)
+	if len(res.Excluded) > 0 && len(res.TypeErr) < 8 {
+		res.TypeErr = append(res.TypeErr, "excluded from the build by build constraints in the generated text: "+strings.Join(res.Excluded, ", "))
+	}
 }
 
 func firstDiff(a, b []byte) string {
